@@ -82,6 +82,9 @@ var hdr = regexp.MustCompile(`^goroutine \d+ \[([^\]]+)\]:`)
 
 // blockedUnderEbu: at least one goroutine is parked in a lock / WaitGroup / channel acquisition
 // below a github.com/jilio/ebu frame, and no goroutine with an ebu frame is running or runnable.
+// BlockedUnderEbu is the dump rule used by every hang verdict.
+func BlockedUnderEbu(d string) bool { return blockedUnderEbu(d) }
+
 func blockedUnderEbu(d string) bool {
 	blocked := false
 	for _, g := range strings.Split(d, "\n\n") {
